@@ -52,7 +52,7 @@ func (v *vclock) EstimatedCurrentSlot() phase0.Slot { return phase0.Slot(v.slot.
 func (v *vclock) EstimatedCurrentEpoch() phase0.Epoch {
 	return v.EstimatedEpochAtSlot(v.EstimatedCurrentSlot())
 }
-func (v *vclock) epoch() phase0.Epoch { return v.EstimatedCurrentEpoch() }
+func (v *vclock) epoch() phase0.Epoch  { return v.EstimatedCurrentEpoch() }
 func (v *vclock) advance(slots uint64) { v.slot.Add(slots) }
 
 // realEpochOK: the far-future guard of eth2-key-manager reads the wall clock; virtual epochs must be far below it.
@@ -111,6 +111,19 @@ type faultDB struct {
 	readErrHit int
 }
 
+// db returns the wrapped store (synchronised: the concurrent lane detaches it from frozen signers).
+func (f *faultDB) db() basedb.Database {
+	f.mu.Lock()
+	defer f.mu.Unlock()
+	return f.inner
+}
+
+func (f *faultDB) setInner(in basedb.Database) {
+	f.mu.Lock()
+	f.inner = in
+	f.mu.Unlock()
+}
+
 func (f *faultDB) arm(k int, after bool) {
 	f.mu.Lock()
 	f.crashAt, f.crashAfter = f.n+k, after
@@ -158,7 +171,7 @@ func (f *faultDB) step(op string, prefix []byte) (crashAfter bool) {
 
 func (f *faultDB) Set(prefix, key, value []byte) error {
 	after := f.step("Set", prefix)
-	err := f.inner.Set(prefix, key, value)
+	err := f.db().Set(prefix, key, value)
 	if after {
 		panic(crashSentinel{})
 	}
@@ -167,7 +180,7 @@ func (f *faultDB) Set(prefix, key, value []byte) error {
 
 func (f *faultDB) Delete(prefix, key []byte) error {
 	after := f.step("Delete", prefix)
-	err := f.inner.Delete(prefix, key)
+	err := f.db().Delete(prefix, key)
 	if after {
 		panic(crashSentinel{})
 	}
@@ -190,7 +203,7 @@ func (f *faultDB) Get(prefix, key []byte) (basedb.Obj, bool, error) {
 		}
 		return basedb.Obj{}, found, errInjectedRead
 	}
-	o, ok, err := f.inner.Get(prefix, key)
+	o, ok, err := f.db().Get(prefix, key)
 	if after {
 		panic(crashSentinel{})
 	}
@@ -199,7 +212,7 @@ func (f *faultDB) Get(prefix, key []byte) (basedb.Obj, bool, error) {
 
 func (f *faultDB) GetAll(prefix []byte, h func(int, basedb.Obj) error) error {
 	after := f.step("GetAll", prefix)
-	err := f.inner.GetAll(prefix, h)
+	err := f.db().GetAll(prefix, h)
 	if after {
 		panic(crashSentinel{})
 	}
@@ -207,13 +220,13 @@ func (f *faultDB) GetAll(prefix []byte, h func(int, basedb.Obj) error) error {
 }
 
 func (f *faultDB) GetMany(prefix []byte, keys [][]byte, it func(basedb.Obj) error) error {
-	return f.inner.GetMany(prefix, keys, it)
+	return f.db().GetMany(prefix, keys, it)
 }
 func (f *faultDB) SetMany(prefix []byte, n int, next func(int) (basedb.Obj, error)) error {
-	return f.inner.SetMany(prefix, n, next)
+	return f.db().SetMany(prefix, n, next)
 }
-func (f *faultDB) Begin() basedb.Txn         { return f.inner.Begin() }
-func (f *faultDB) BeginRead() basedb.ReadTxn { return f.inner.BeginRead() }
+func (f *faultDB) Begin() basedb.Txn         { return f.db().Begin() }
+func (f *faultDB) BeginRead() basedb.ReadTxn { return f.db().BeginRead() }
 func (f *faultDB) Using(rw basedb.ReadWriter) basedb.ReadWriter {
 	if rw == nil {
 		return f
@@ -226,11 +239,11 @@ func (f *faultDB) UsingReader(r basedb.Reader) basedb.Reader {
 	}
 	return r
 }
-func (f *faultDB) CountPrefix(prefix []byte) (int64, error) { return f.inner.CountPrefix(prefix) }
-func (f *faultDB) DeletePrefix(prefix []byte) (int, error)  { return f.inner.DeletePrefix(prefix) }
-func (f *faultDB) DropPrefix(prefix []byte) error           { return f.inner.DropPrefix(prefix) }
-func (f *faultDB) Update(fn func(basedb.Txn) error) error   { return f.inner.Update(fn) }
-func (f *faultDB) Close() error                             { return f.inner.Close() }
+func (f *faultDB) CountPrefix(prefix []byte) (int64, error) { return f.db().CountPrefix(prefix) }
+func (f *faultDB) DeletePrefix(prefix []byte) (int, error)  { return f.db().DeletePrefix(prefix) }
+func (f *faultDB) DropPrefix(prefix []byte) error           { return f.db().DropPrefix(prefix) }
+func (f *faultDB) Update(fn func(basedb.Txn) error) error   { return f.db().Update(fn) }
+func (f *faultDB) Close() error                             { return f.db().Close() }
 
 // ---- shares, released signatures -----------------------------------------------------------------------
 
@@ -292,22 +305,23 @@ type lifeEvent struct {
 }
 
 type world struct {
-	c       *evid.Case
-	logger  *zap.Logger
-	onDisk  bool
-	dir     string
-	inner   basedb.Database
-	fdb     *faultDB
-	clk     *vclock
-	net     networkconfig.NetworkConfig
-	builder bool
-	km      spectypes.KeyManager
-	sp      ekm.StorageProvider
-	shares  []*share
-	hist    []opRec
-	life    []lifeEvent
-	domAtt  phase0.Domain
-	domProp phase0.Domain
+	c        *evid.Case
+	logger   *zap.Logger
+	onDisk   bool
+	shared   bool // inner is the child's shared in-memory store (never closed by a case)
+	dir      string
+	inner    basedb.Database
+	fdb      *faultDB
+	clk      *vclock
+	net      networkconfig.NetworkConfig
+	builder  bool
+	km       spectypes.KeyManager
+	sp       ekm.StorageProvider
+	shares   []*share
+	hist     []opRec
+	life     []lifeEvent
+	domAtt   phase0.Domain
+	domProp  phase0.Domain
 	violated bool
 }
 
@@ -316,6 +330,38 @@ var initOnce sync.Once
 func initCrypto() { initOnce.Do(threshold.Init) }
 
 func runTmp() string { return filepath.Join(evid.OutRoot, "build", "run-tmp") }
+
+// childState: one in-memory badger per child process, wiped before every history (opening a badger
+// instance costs 30 ms - 4 s of allocation on this machine; the wipe makes a case independent of its predecessors).
+type childState struct {
+	db basedb.Database
+}
+
+func sharedDB(c *evid.Case, logger *zap.Logger) (basedb.Database, bool, error) {
+	if c == nil {
+		db, err := kv.NewInMemory(logger, basedb.Options{})
+		return db, false, err
+	}
+	st, _ := c.Child.Data.(*childState)
+	if st == nil {
+		st = &childState{}
+		c.Child.Data = st
+	}
+	if st.db == nil {
+		db, err := kv.NewInMemory(logger, basedb.Options{})
+		if err != nil {
+			return nil, false, err
+		}
+		st.db = db
+	}
+	if _, err := st.db.DeletePrefix(nil); err != nil {
+		return nil, false, err
+	}
+	if n, err := st.db.CountPrefix(nil); err != nil || n != 0 {
+		return nil, false, fmt.Errorf("shared store not empty after wipe: %d keys, %v", n, err)
+	}
+	return st.db, true, nil
+}
 
 func newWorld(c *evid.Case, rng *rand.Rand, nShares int, onDisk bool, tag string) (*world, error) {
 	initCrypto()
@@ -342,7 +388,7 @@ func newWorld(c *evid.Case, rng *rand.Rand, nShares int, onDisk bool, tag string
 		}
 		w.inner, err = kv.New(w.logger, basedb.Options{Path: w.dir})
 	} else {
-		w.inner, err = kv.NewInMemory(w.logger, basedb.Options{})
+		w.inner, w.shared, err = sharedDB(c, w.logger)
 	}
 	if err != nil {
 		return nil, err
@@ -352,14 +398,35 @@ func newWorld(c *evid.Case, rng *rand.Rand, nShares int, onDisk bool, tag string
 }
 
 func (w *world) close() {
-	if w.inner != nil {
+	if w.inner != nil && !w.shared {
 		_ = w.inner.Close()
-		w.inner = nil
 	}
+	w.inner = nil
 	if w.dir != "" {
 		_ = os.RemoveAll(w.dir)
 	}
 }
+
+// deadDB is what a frozen signer of the concurrent lane is left with: every access fails.
+type deadDB struct{}
+
+var errDead = errors.New("c04: store detached")
+
+func (deadDB) Get([]byte, []byte) (basedb.Obj, bool, error)             { return basedb.Obj{}, false, errDead }
+func (deadDB) GetMany([]byte, [][]byte, func(basedb.Obj) error) error   { return errDead }
+func (deadDB) GetAll([]byte, func(int, basedb.Obj) error) error         { return errDead }
+func (deadDB) Set([]byte, []byte, []byte) error                         { return errDead }
+func (deadDB) SetMany([]byte, int, func(int) (basedb.Obj, error)) error { return errDead }
+func (deadDB) Delete([]byte, []byte) error                              { return errDead }
+func (deadDB) Begin() basedb.Txn                                        { return nil }
+func (deadDB) BeginRead() basedb.ReadTxn                                { return nil }
+func (d deadDB) Using(rw basedb.ReadWriter) basedb.ReadWriter           { return d }
+func (d deadDB) UsingReader(r basedb.Reader) basedb.Reader              { return d }
+func (deadDB) CountPrefix([]byte) (int64, error)                        { return 0, errDead }
+func (deadDB) DeletePrefix([]byte) (int, error)                         { return 0, errDead }
+func (deadDB) DropPrefix([]byte) error                                  { return errDead }
+func (deadDB) Update(func(basedb.Txn) error) error                      { return errDead }
+func (deadDB) Close() error                                             { return nil }
 
 // reopenDisk closes and reopens the on-disk store (process restart with a real database).
 func (w *world) reopenDisk() error {
@@ -374,7 +441,7 @@ func (w *world) reopenDisk() error {
 		return err
 	}
 	w.inner = in
-	w.fdb.inner = in
+	w.fdb.setInner(in)
 	return nil
 }
 
